@@ -439,6 +439,47 @@ def run(report, p):
                 r8.check(False, f, n, f"the chain's generation list is modified by {bad} outside append_generation: entries can disappear or change place before they are verified", construct=f"generation list modified: {norm(n)[:60]}")
     r8.instance(None, None, f"{nmod} other modification site(s) of MHLChain.generations")
 
+    # ------------------------------------------------------------------ R5.9
+    r9 = report.rule(
+        "R5.9",
+        "the loader has the first word: where a function loads a history, a refusal that can be reached without passing the load may depend on whether a folder exists, "
+        "never on what the ascmhl folder contains (listing / globbing / opening it): with a manifest or the chain removed the verdict is the loader's 33 / 32 / 31, not `no history`",
+        5,
+    )
+    content_readers = {"listdir", "scandir", "walk", "glob", "iglob", "open", "stat", "lstat", "getsize", "iterdir", "rglob", "fnmatch", "filter"}
+    n_load_sites = 0
+    for fq, f in p.funcs.items():
+        if f.module.name in unshipped:
+            continue
+        loads = [c for c, tg in p.calls[fq] if loader.qual in p.may_targets(tg)]
+        if not loads:
+            continue
+        g = cfg_of(f)
+        n_load_sites += len(loads)
+        r9.instance(f, loads[0], "function loading a history")
+        load_ids = {g.node_for(c).id for c in loads}
+        for n in g.nodes:
+            if n.kind != "stmt" or not isinstance(n.ast, ast.Raise) or n.id in load_ids:
+                continue
+            if g.find_path(g.entry, {n.id}, avoid=load_ids) is None:
+                continue
+            bad = []
+            for t, l in g.control_deps(n):
+                if t.kind != "test":
+                    continue
+                seen_calls = [norm(c.func) for c in ast.walk(t.ast) if isinstance(c, ast.Call)]
+                for nm_ in [x for x in ast.walk(t.ast) if isinstance(x, ast.Name) and isinstance(x.ctx, ast.Load)]:
+                    for o in pr.origins(nm_, f):
+                        for s_ in subterms(o):
+                            if s_[0] == "call":
+                                seen_calls.append(s_[1])
+                for c_ in seen_calls:
+                    if c_.split(":")[-1].split(".")[-1] in content_readers:
+                        bad.append(f"{norm(t.ast)[:70]} <- {c_}")
+            r9.check(not bad, f, n.ast, f"a refusal reachable before the history is loaded depends on the contents of a folder ({sorted(set(bad))[:2]}): a history whose manifest or chain file was removed is answered with this verdict instead of the loader's 33 / 32", construct=f"pre-load refusal on folder contents in {f.name}")
+    if n_load_sites < 5:
+        raise AnalysisError("fewer than 5 call sites of the loader")
+
     # ---- rules shared with other properties (same mechanism, same rule, reported under every property it can break)
     include_rules(report, p, 'c03', ['R3.17'], 'the refusal codes are raised through the `errors` module on early paths')
     include_rules(report, p, 'c06', ['R6.4'], 'a manifest is checked against the digest taken when it was written: the chain rewrite copies the existing entries verbatim (it never re-hashes an old manifest, which would bless a later modification)')
